@@ -20,6 +20,7 @@ ADVERSARIAL = [
     "…ellipsis…", "—dash—", "‼⁇", "(paren) [bracket] {brace}", "q", "qq", "Q q Q",
     "à la carte", "и мир", "õ ã", "ß", "ßß", "œuf", "ŒUF",
     "퟿", "﻿bom", "\u0000\u0000", "a\u0000", "\u0000a",
+    " ".join("w%d" % i for i in range(70)), "x" * 300, "ab" * 40 + " " + "ab" * 40, "-".join("abcdefghij"[i % 10] for i in range(90)),
 ]
 
 
